@@ -845,6 +845,59 @@ def stream_pasv(ctx, n):
         ctx.sample({'stream': 'pasv', 'text': meta[0][0]})
 
 
+def stream_cache(ctx, n):
+    """wpull.cache (the FTP processor's listing cache, the DNS cache) over long runs: random histories with a clock that
+    jumps past the time to live.  The way the callers use it — `if key in cache: value = cache[key]` — must never raise,
+    whatever time passed between two uses (a KeyError there leaves FTPProcessor.process: no per-URL error kind)."""
+    import wpull.cache as wc
+    rng = ctx.rng
+    real_time = wc.time
+    clock = {'t': 1000.0}
+
+    class _Time:
+        @staticmethod
+        def time():
+            return clock['t']
+    wc.time = _Time
+    first = None
+    try:
+        for _ in range(n):
+            cls = rng.choice([wc.FIFOCache, wc.LRUCache])
+            ttl = rng.choice([None, 5, 60, 3600])
+            cache = cls(max_items=rng.choice([None, 1, 2, 10]), time_to_live=ttl)
+            ops = []
+            bad = None
+            for _ in range(rng.randint(3, 30)):
+                op = rng.choice(['set', 'set', 'use', 'use', 'use', 'wait', 'len', 'iter'])
+                key = rng.choice(['ftp://h/a/', 'ftp://h/b/', 'ftp://h/c/', 'k'])
+                ops.append((op, key))
+                try:
+                    if op == 'set':
+                        cache[key] = len(ops)
+                    elif op == 'use':
+                        if key in cache:
+                            cache[key]
+                    elif op == 'wait':
+                        clock['t'] += rng.choice([1, 10, 61, 3599, 3601, 7200])
+                    elif op == 'len':
+                        len(cache)
+                    else:
+                        list(cache)
+                except Exception as e:   # noqa
+                    bad = e
+                    break
+            case = {'stream': 'cache', 'cls': cls.__name__, 'ops': ops}
+            first = first or case
+            ctx.case(('cache', cls.__name__, repr(ops)), tags=['cache:' + cls.__name__, 'cache:ttl=%s' % ttl])
+            if bad is not None:
+                c2, where = classify(bad)
+                ctx.fail(c2, 'cache', case, 'after %d operations `%s %s` raised %r' % (len(ops), ops[-1][0], ops[-1][1], bad))
+    finally:
+        wc.time = real_time
+    if first:
+        ctx.sample(first)
+
+
 def load_corpus(ctx):
     out = []
     for p in sorted(glob.glob(os.path.join(ctx.verif, 'harness', 'corpus', 'C09', '*.json'))):
@@ -872,6 +925,7 @@ def run(ctx):
     stream_cookies(ctx, ctx.scale(120, 2500))
     stream_ftp(ctx, ctx.scale(1200, 15000))
     stream_pasv(ctx, ctx.scale(1500, 30000))
+    stream_cache(ctx, ctx.scale(1500, 30000))
     stream_ftp_proc(ctx, ctx.scale(500, 8000))
     stream_e2e(ctx, ctx.scale(100, 1200))
 
